@@ -10,6 +10,8 @@ class Gen:
     def __init__(self, seed, conf=None, names=None, maxblk=3, spare=True, profile="mixed", data_seed=None):
         self.rng = random.Random(seed)
         self.conf = conf or arr.Conf(nd=self.rng.choice([2, 2, 3]), np=self.rng.choice([1, 2, 2, 3]), copies=2)
+        if profile == "inodes":
+            self.conf.inomode = True
         self.a = arr.Array(self.conf, seed=seed if data_seed is None else data_seed)
         self.a.io_vary = True
         self.names = names or (["A", "B", "sub/E", "sub/F", "sub/deep/K"] if profile == "filters" else ["A", "B", "E", "F", "K"])
@@ -109,6 +111,57 @@ class Gen:
             return None
         self.a.write_file(d, m, vals, mtime=self.stamp())
         return "restore %d/%s as %s (same bytes)" % (d, n, m)
+
+    def op_mv(self):
+        """rename within the disk (the inode stays): to a free name, or onto another file (which is replaced)"""
+        d = self.rng.randrange(self.conf.nd)
+        fl = [f for f in self.files(d) if f != "zz"]
+        if not fl:
+            return None
+        n = self.rng.choice(fl)
+        m = self.rng.choice([x for x in self.names + ["sub/" + self.names[0]] if x != n])
+        src, dst = self.a.path(d, n), self.a.path(d, m)
+        if os.path.isdir(dst):
+            return None
+        os.makedirs(os.path.dirname(dst), exist_ok=True)
+        over = os.path.lexists(dst)
+        os.replace(src, dst)
+        return "mv %d/%s %s%s" % (d, n, m, " (replacing it)" if over else "")
+
+    def op_swapnames(self):
+        """two files of a disk exchange their names (each keeps its inode, bytes and time stamp)"""
+        d = self.rng.randrange(self.conf.nd)
+        fl = [f for f in self.files(d) if f != "zz"]
+        if len(fl) < 2:
+            return None
+        x, y = self.rng.sample(fl, 2)
+        px, py = self.a.path(d, x), self.a.path(d, y)
+        os.rename(px, px + ".swap"); os.rename(py, px); os.rename(px + ".swap", py)
+        return "swap names %d/%s <-> %s" % (d, x, y)
+
+    def op_twin(self):
+        """a second file with the size and the time stamp of an existing one (other bytes)"""
+        d = self.rng.randrange(self.conf.nd)
+        fl = [f for f in self.files(d) if f != "zz" and os.path.getsize(self.a.path(d, f)) > 0]
+        if not fl:
+            return None
+        n = self.rng.choice(fl)
+        st = os.lstat(self.a.path(d, n))
+        free = [x for x in self.names if not os.path.lexists(self.a.path(d, x))]
+        if not free or st.st_size % arr.BS:
+            return None
+        m = self.rng.choice(free)
+        vals = [self.val() for _ in range(st.st_size // arr.BS)]
+        self.a.write_file(d, m, vals)
+        os.utime(self.a.path(d, m), ns=(st.st_mtime_ns, st.st_mtime_ns))
+        return "write %d/%s %r with the size and stamp of %s" % (d, m, vals, n)
+
+    def op_uuidswap(self):
+        """the data lines of the configuration change their order: the disks report other UUIDs than the recorded ones, so the
+        next scan must not trust the recorded inode numbers"""
+        self.a.data_reversed = not getattr(self.a, "data_reversed", False)
+        self.a.write_conf()
+        return "data lines of the configuration %s" % ("reversed" if self.a.data_reversed else "in the first order again")
 
     def op_reinode(self):
         """a recorded file is replaced by a copy of itself (same bytes, same time stamp): only its inode is new (what a restore
@@ -593,6 +646,8 @@ class Gen:
                     ("lose_disk", 3), ("lose_parity", 3), ("sync", 14), ("check", 12), ("fix", 22), ("scrub", 14), ("diff", 1)],
         "rehash": [("add", 14), ("copy", 5), ("touch", 2), ("delete", 8), ("corrupt", 6), ("corrupt_parity", 2), ("lose_disk", 2),
                    ("sync", 20), ("check", 6), ("fix", 8), ("scrub", 12), ("diff", 2), ("rehashcmd", 10)],
+        "inodes": [("uuidswap", 3), ("add", 14), ("mv", 14), ("swapnames", 8), ("twin", 6), ("reinode", 6), ("samesize", 4), ("samesec", 3), ("touch", 3),
+                   ("delete", 6), ("restore", 3), ("sync", 20), ("diff", 8), ("check", 5), ("list", 2)],
         "detect": [("reinode", 2), ("touch", 3), ("rehashcmd", 2), ("add", 8), ("delete", 3), ("corrupt", 14), ("corrupt_burst", 10), ("corrupt_parity", 14), ("sync", 14),
                    ("check", 18), ("scrub", 14), ("fix", 6)],
         "damage": [("reinode", 3), ("add", 10), ("delete", 6), ("corrupt", 14), ("corrupt_parity", 8), ("lose_disk", 6), ("lose_parity", 5),
